@@ -226,6 +226,7 @@ theorem insert_refines' (s : Store) (pt sch : Levels) (tbls : List (Bytes × Lev
     (table : Bytes) (t : Levels) (ht : (table, t) ∈ tbls) (cols : List String) (vals : List Val)
     (schema : List FieldDef) (buf : Bytes) (hsch : schemaOf sch table = some schema)
     (hcols : (colsOf schema cols).length = vals.length)
+    (hnames : checkColumns schema (colsOf schema cols) = none)
     (henc : encodeTuple schema ((colsOf schema cols).zip vals).reverse = .ok buf)
     (hlen : buf.length ≤ c_maxValueSize)
     (t' : Levels) (nf' : Nat)
@@ -266,7 +267,7 @@ theorem insert_refines' (s : Store) (pt sch : Levels) (tbls : List (Bytes × Lev
        else pure [(⟨c_OpInsert, s.hdr.nextLSN, rootOff t, s.hdr.lastKey + 1, buf⟩ : WalRec)]) s4 := by
     rw [insert_eq, bind_ok e1, bind_ok e2, bind_ok e3]
     have hc : ((colsOf schema cols).length != vals.length) = false := by simp [hcols]
-    simp only [hc, Bool.false_eq_true, if_false]
+    simp only [hc, Bool.false_eq_true, if_false, hnames]
     rw [bind_ok e4, bind_ok e5]
   have hfr04 : ∀ off, off ∉ offs t' → view s4 off = view s off := fun off ho => by
     rw [hfr4 off ho, hs03.1]
